@@ -149,6 +149,18 @@ CLAIMED["C11"] = (
     "after imputation ...); TLC checks each run row by row against the fault-free reference.",
     "5/C11", "")
 
+CLAIMED["C17"] = (
+    "TLA+ model of the normal form as a stable sort (Normalize.tla) checked exhaustively by TLC; real normalize_smiles / "
+    "wc_similarity / benchmark results on families of equivalent spellings validated by TLC (Normalize_Trace.tla)",
+    "TLC checks idempotence and invariance under every permutation for all sides of up to 4 molecules drawn from a "
+    "set in which two pairs tie on the sort key; the as-built key without a total order must fail. For stereo-free "
+    "corpus reactions and isomer sets whose canonical SMILES are anagrams, variants are generated (molecules permuted, "
+    "random atom order, kekulised, atom maps added); TLC first confirms from oracle identities that each variant is the "
+    "same reaction, then checks idempotence and equality of the normal forms inside each family, similarity exactly 1 "
+    "between a reaction and its variants for the three methods, symmetry and range on pairs of different reactions, "
+    "and that `synrbl benchmark` counts every solved row whose expected reaction is a respelled permutation as correct.",
+    "5/C17", "")
+
 PENDING_REASON = "check not built yet in this round (planned, see DESIGN.md section 5); not claimed until it passes on the unchanged tree"
 
 
